@@ -261,7 +261,11 @@ def layouts(ctx):
         big = np.zeros((2 * nk, 2 * nth))
         big[::2, ::2] = a
         for name, arr in (("transposed view", np.ascontiguousarray(a.T).T), ("Fortran order", np.asfortranarray(a)), ("strided view", big[::2, ::2]),
-                          ("float32 transposed", np.ascontiguousarray(a.T.astype("float32")).T)):
+                          ("float32 transposed", np.ascontiguousarray(a.T.astype("float32")).T),
+                          # byte order is part of the memory layout: big-endian arrays (what a netCDF3 / XDR / fromfile reader hands over)
+                          # hold the same values
+                          ("big-endian float32", a.astype(">f4")), ("big-endian float64", a.astype(">f8")),
+                          ("int32 (integer-valued energies)", a.astype("int32"))):
             ctx.case(("layout", k, name), True)
             got = np.asarray(pmod.np_ptm3(arr, arr, freq, dirs, None, 100))
             if got.shape == ref.shape and np.allclose(got, ref, rtol=1e-6):
